@@ -77,7 +77,7 @@ def build():
             extract.write_tables()
         except Exception as e:
             raise LeanBroken('table extraction from /repo failed (tie T0)', repr(e))
-        p = subprocess.run(['lake', 'build'], cwd=LEAN, capture_output=True, text=True)
+        p = subprocess.run(['lake', 'build'], cwd=LEAN, capture_output=True, text=True, timeout=1500)
         if p.returncode != 0:
             out = p.stdout + p.stderr
             errs = re.findall(r'error: (\S+\.lean:\d+:\d+: .*)', out)
